@@ -110,3 +110,59 @@ package parser
 //@   deterministic
 
 //@ spec bypassType(t int) bool = t == SyslLexerNEWLINE || t == SyslLexerNEWLINE_2 || t == SyslLexerEMPTY_LINE || t == SyslLexerE_NL || t == SyslLexerE_EMPTY_LINE || t == SyslLexerTMPL_NL || t == SyslLexerINDENTED_COMMENT || t == SyslLexerEMPTY_COMMENT || t == SyslLexerE_INDENTED_COMMENT || t == SyslLexerE_DOT_NAME_NL
+
+// ---- C07: no shared mutable parser state — every lexer / parser instance gets its own ATN, DFA array and cache
+
+//@ func NewSyslLexer
+//@   trusted
+//@   noeffect
+//@   fresh
+//@   ensures result != nil && result.BaseLexer != nil && fresh(result.BaseLexer) && allocated(result.BaseLexer)
+//@ func NewSyslParser
+//@   trusted
+//@   noeffect
+//@   fresh
+//@   ensures result != nil && result.BaseParser != nil && fresh(result.BaseParser) && allocated(result.BaseParser)
+//@ func github.com/antlr/antlr4/runtime/Go/antlr.NewATNDeserializer
+//@   trusted
+//@   noeffect
+//@   fresh
+//@   ensures result != nil
+//@ func (*github.com/antlr/antlr4/runtime/Go/antlr.ATNDeserializer).DeserializeFromUInt16
+//@   trusted
+//@   noeffect
+//@   fresh
+//@   ensures result != nil
+//@ func github.com/antlr/antlr4/runtime/Go/antlr.NewDFA
+//@   trusted
+//@   noeffect
+//@   fresh
+//@   ensures result != nil
+//@ func github.com/antlr/antlr4/runtime/Go/antlr.NewPredictionContextCache
+//@   trusted
+//@   noeffect
+//@   fresh
+//@   ensures result != nil
+//@ func github.com/antlr/antlr4/runtime/Go/antlr.NewLexerATNSimulator
+//@   trusted
+//@   noeffect
+//@   fresh
+//@   ensures result != nil
+//@ func github.com/antlr/antlr4/runtime/Go/antlr.NewParserATNSimulator
+//@   trusted
+//@   noeffect
+//@   fresh
+//@   ensures result != nil
+
+// Only objects created in this call are written (no package-level variable is assigned), and the simulator is built
+// from an ATN, a DFA array and a prediction cache that were all created in this very call.
+//@ func NewThreadSafeSyslLexer
+//@   perwrite
+//@   modifies nothing
+//@   assert @call:github.com/antlr/antlr4/runtime/Go/antlr.NewLexerATNSimulator [own-structures] fresh(arg1) && fresh(arg2) && fresh(arg3)
+//@   ensures [fresh-instance] result != nil && fresh(result) && result.Interpreter != nil && fresh(result.Interpreter)
+//@ func NewThreadSafeSyslParser
+//@   perwrite
+//@   modifies nothing
+//@   assert @call:github.com/antlr/antlr4/runtime/Go/antlr.NewParserATNSimulator [own-structures] fresh(arg1) && fresh(arg2) && fresh(arg3)
+//@   ensures [fresh-instance] result != nil && fresh(result) && result.Interpreter != nil && fresh(result.Interpreter)
